@@ -313,7 +313,7 @@ pub fn property(tier: Tier) -> Property {
         exhaustive: false,
     })];
     Property {
-        id: "C03",
+        id: "C03", scale: tier.pick(4, 2),
         stages,
         assumptions: vec![
             "the rule pool is valid in the model (self-checked by random model-level instantiation: `sev validate-rules`)".into(),
